@@ -13,7 +13,7 @@
 #include "datatypes.h"
 #include "errmsg.h"
 
-extern Word ErrorCount, WarnCount;
+extern LongWord ErrorCount, WarnCount;
 
 struct sLineComp;
 struct sStrComp;
